@@ -5,6 +5,7 @@
 package main
 
 import (
+	"time"
 	"fmt"
 	"os"
 	"sort"
@@ -95,6 +96,17 @@ func cmdScen(seedS, tier string) int {
 	// deterministic replay of one interleaving: Close while a dial has just returned
 	for _, mode := range []mpx.ClientMode{mpx.ClientMode_OnDemand, mpx.ClientMode_AutoConnect} {
 		line, viol := runCloseDuringDial(mode)
+		fmt.Println(line)
+		if len(viol) > 0 {
+			violRuns++
+			for _, v := range viol {
+				kinds[kind(v)]++
+			}
+		}
+	}
+	// a long outage: the back-off reaches its cap and stays there for several attempts
+	{
+		line, viol := runLongOutage(3, 6500*time.Millisecond)
 		fmt.Println(line)
 		if len(viol) > 0 {
 			violRuns++
